@@ -214,7 +214,9 @@ func c12Run(c *fw.Ctx, idx int, sc c12Scenario) {
 	cl.Quiesce()
 	if idx%2 == 1 {
 		// late retransmissions: every gossip message of the scenario arrives once more, everywhere
-		c.Observe("gossip_messages_redelivered", cl.RedeliverAllGossip())
+		// (a seeded half of them: a retransmitted announcement does not always come with the removal that followed it)
+		rr := c.SubRng("c12/redeliver", idx)
+		c.Observe("gossip_messages_redelivered", cl.RedeliverGossip(func(int, uint64) bool { return rr.Intn(2) == 0 }))
 		cl.Quiesce()
 	}
 	if bystander >= 0 {
